@@ -218,16 +218,20 @@ def enum_jobs(ctx, fam, cases, keep=2000):
 
 
 def _work_any(job):
-    """One pool for everything: ("enum", fam, case, seed, keep) or ("rand", fam, graph, seed)."""
+    """One pool for everything: ("enum", fam, case, seed, keep) or ("rand", fam, graph, seed).  The result travels
+    as one JSON string: the parent parses it much faster than it unpickles the nested observation."""
+    import json
     if job[0] == "enum":
-        return _work(job[1:])
-    return _observe_random(job[1:])
+        return json.dumps(_work(job[1:]))
+    return json.dumps(_observe_random(job[1:]))
 
 
 def absorb(ctx, jobs, results, report=True):
     """Book-keeping of the results of enum / rand jobs: returns (quads to cross-validate, quads for TLC alone)."""
+    import json
     xval, rnd = [], []
     for job, res in zip(jobs, results):
+        res = json.loads(res)
         if job[0] == "rand":
             fam, case, obs = res
             if isinstance(obs, dict):
